@@ -205,7 +205,7 @@ def descRV (heap : List (Nat × Runtime.Obj)) : Nat → Runtime.RV → Json
     | .nil => Json.mkObj [("k", "nil")]
     | .prim p => primJ p
     | .nilobj => Json.mkObj [("k", "nilobj")]
-    | .container => Json.mkObj [("k", "container")]
+    | .container => Json.mkObj [("k", "container"), ("same", true)]
     | .slice l => sl l
     | .anon ptr ctor => objJ ptr 0 { ctor := ctor, args := [] }
     | .ref ptr n => match heap.lookup n with
@@ -279,6 +279,9 @@ def handle (j : Json) : Json :=
   | "quote" => Json.mkObj [("ok", Val.quoteStr (jstr j "s"))]
   | "export" => Json.mkObj [("ok", (valOfJson ((j.getObjVal? "v").toOption.getD Json.null)).goExport)]
   | "cast" => Json.mkObj [("ok", (valOfJson ((j.getObjVal? "v").toOption.getD Json.null)).castToString)]
+  | "mapkeys" =>
+    let ks := (jarr j "keys").toList.filterMap (·.getStr?.toOption)
+    Json.mkObj [("ok", strList (AMap.keys (ks.map fun k => (k, ()))))]
   | "sanitize" => Json.mkObj [("ok", Imports.sanitize (jstr j "s"))]
   | "re" =>
     match reByName (jstr j "name") with
